@@ -396,10 +396,13 @@ end Pycel.Failure
 namespace Pycel.Failure.Inst
 open Pycel Pycel.Engine Pycel.EngineInst Pycel.Failure
 
-/-- how a formula cell is made to fail: `unknown` = a function pycel does not know (`=FOO(…)`, NameError),
-    `raises` = a plugin function that raises on every call, `failAt k` = a plugin that raises on its k-th call only -/
+/-- how a formula cell is made to fail: `unknown` = a function pycel does not know (`=FOO(…)`, NameError on the
+    unresolved name), `raises r` = a plugin function that raises on every call, `failAt k r` = a plugin that raises
+    on its k-th call only; `r` = the class of the Python exception raised inside the function as `eval_func` sees it
+    (`nameError`: NameError / UnboundLocalError — the `except NameError` clause does not ask where the NameError
+    came from, so it surfaces as UnknownFunction too; `recursion`: RecursionError; `other`: any other Exception) -/
 inductive Mode where
-  | ok | unknown | raises | failAt (k : Nat)
+  | ok | unknown | raises (r : Raw) | failAt (k : Nat) (r : Raw)
   deriving DecidableEq, Repr, Inhabited
 
 /-- a node of the generated workbook: the C01 node + failure mode + captured-message counts (`("a"+1)+…` before,
@@ -436,14 +439,14 @@ def semOf (fs : List FSpec) : Sem EV where
     | some x =>
       match x.mode with
       | .unknown => .error .nameError
-      | .raises => .error .other
+      | .raises r => .error r
       | _ => .ok (valueSem fs i env)
     | none => .ok (.sc .blank)
   fault := fun i c =>
     match fs[i]? with
     | some x =>
       match x.mode with
-      | .failAt k => if c + 1 = k then some .other else none
+      | .failAt k r => if c + 1 = k then some r else none
       | _ => none
     | none => none
   pre := fun i => match fs[i]? with | some x => x.pre | none => 0
